@@ -73,7 +73,7 @@ MANIFEST = dict(
          'values: correspondence); soundscript / PCF / choreo text whole-file round trips are decided by search only. Trusted: Coq kernel + vm_compute (incl. its primitive binary64 floats), translate/c20_formats.py, c20_keytables.py, c20_quant.py, hand models Fmt/SmdNumber.v, Fmt/ChoreoQuant.v, '
          'Fmt/CmdSeq.v, Fmt/ScenesImage.v, Fmt/ChoreoBin.v layouts, Fmt/SceneSummary.v, Fmt/SndStacks.v, Fmt/VmtQuote.v (each tied by differential runs; the layouts also by '
          'kernel-checked path equality with the generated paths), the tokenizer model KV/KvLex.v of C01, CPython struct/lzma/zlib.crc32. '
-         'Known finding: text VCD flex-animation blocks are written but the reader raises NotImplementedError.',
+         'No known finding left: round 4 repaired the text writer of the flexanimations block (never closed) and implemented its reader.',
 )
 
 IMP_CS = ['Coq.Lists.List', 'Coq.NArith.NArith', 'Coq.ZArith.ZArith', 'Coq.Bool.Bool', 'SV.Fmt.CmdSeq', 'SV.Gen.CmdSeqFmt_gen']
